@@ -80,7 +80,7 @@ CHECKS["C16"] = dict(cat="other", technique="symbolic abstract interpretation of
     ref="§8.8 C16")
 
 CHECKS["C20"] = dict(cat="other", technique="finite-domain abstract interpretation of the built-in floor over argument classes; bit-mask / sign-class rules; polynomial identities for Newton refinement steps; delegation-table agreement; cross-profile (debug vs release MIR) comparison of every float helper's return expression",
-    text="Decides the exact and structural clauses only, in every feature configuration: the built-in floor is the exact floor on every class of argument (negative/positive x integral/non-integral, -0.0; |x| < 2^63); the built-in abs clears exactly the sign bit; the built-in rem_euclid (also used with libm) is (x % m) + [x negative]*m, hence in [0, m] and congruent to x for m > 0; the refinement steps of mm::sqrt, mm::recip_sqrt and the built-in recip_sqrt are Newton's iteration for the right function (polynomial identities) and std/libm recip_sqrt is powf(x, -0.5); every micromath wrapper delegates to the like-named micromath function with its arguments in order and the angle API reaches the like-named function of the configured back-end; and no float helper's returned expression depends on cfg(debug_assertions) (facts dumped a second time with -C debug-assertions=off and compared), so release builds behave like the builds the tests run in. The numeric agreement of the approximate functions with std is NOT claimed.",
+    text="Decides the exact and structural clauses only, in every feature configuration: the built-in floor is the exact floor on every class of argument (negative/positive x integral/non-integral, -0.0; |x| < 2^63); the built-in abs clears exactly the sign bit; the built-in rem_euclid (also used with libm) is (x % m) + [x negative]*m, hence in [0, m] and congruent to x for m > 0; the refinement steps of mm::sqrt, mm::recip_sqrt and the built-in recip_sqrt are Newton's iteration for the right function (polynomial identities) and std/libm recip_sqrt is powf(x, -0.5); every micromath wrapper delegates to the like-named micromath function with its arguments in order and the angle API reaches the like-named function of the configured back-end; raster::round_up_to_half is floor(x + 0.5) + 0.5 in every configuration (pixel rounding); and no float helper's returned expression depends on cfg(debug_assertions) (facts dumped a second time with -C debug-assertions=off and compared), so release builds behave like the builds the tests run in. The numeric agreement of the approximate functions with std is NOT claimed.",
     note="Trusted: libm's and micromath's own floor/abs/rem_euclid; IEEE semantics of `%`, to_bits/from_bits and saturating casts; rustc MIR construction in both profiles. Not decided: error bounds of sqrt, recip_sqrt, powf, exp and the trigonometric/inverse-trigonometric approximations over their domains (numeric), the fallback floor beyond 2^63, rem_euclid for m <= 0.",
     ref="§8.10 C20")
 
